@@ -131,6 +131,64 @@ def synth_spec(rng):
             "props": {"standard_name": "air_temperature"}, "domain": rng.random() < 0.08, "fam": "synthetic"}
 
 
+def shared_spec(rng):
+    """Two or three 1-d coordinates of ONE axis sharing an identity (dim + aux, aux + aux), by
+    standard_name / long_name / ncvar, or only through a regular expression; sometimes the same
+    identity also on a coordinate of ANOTHER axis (then it names no axis); a size-1 axis outside
+    the data named the same way; cell methods over those axes."""
+    nax = rng.choice([2, 3, 3])
+    axes = [{"size": rng.choice([2, 3, 5]), "ncdim": rng.choice(NCD) if rng.random() < 0.5 else None}
+            for _ in range(nax)]
+    axes.append({"size": 1, "ncdim": rng.choice(NCD) if rng.random() < 0.3 else None})   # not spanned by the data
+    data_axes = rng.sample(range(nax), nax)
+    cons = []
+
+    def coord(t, ax, props, ncvar=None, bounds=None):
+        cons.append({"type": t, "axes": [ax], "props": dict(props), "ncvar": ncvar, "bounds": bounds})
+
+    def share(ax, other):
+        how = rng.choice(["sn", "sn", "ln", "ncvar", "regex", "bounds"])
+        pair = rng.choice(["dim+aux", "dim+aux", "aux+aux", "dim+aux+aux"])
+        types = {"dim+aux": ["dimension_coordinate", "auxiliary_coordinate"],
+                 "aux+aux": ["auxiliary_coordinate", "auxiliary_coordinate"],
+                 "dim+aux+aux": ["dimension_coordinate", "auxiliary_coordinate", "auxiliary_coordinate"]}[pair]
+        name = rng.choice(["latitude", "longitude", "time", "height"])
+        for j, t in enumerate(types):
+            if how == "sn":
+                coord(t, ax, {"standard_name": name})
+            elif how == "ln":
+                coord(t, ax, {"long_name": name} if j else {"long_name": name, "units": "m"})
+            elif how == "ncvar":
+                coord(t, ax, {"units": "m"} if j else {}, ncvar=name)
+            elif how == "regex":
+                coord(t, ax, [{"standard_name": "grid_" + name}, {"long_name": "Grid " + name + " name"},
+                              {"standard_name": name}][j % 3])
+            else:
+                coord(t, ax, {"long_name": "c%d" % j},
+                      bounds={"props": {"standard_name": name}, "ncvar": None})
+        if other is not None:
+            # the same identity on a coordinate of another axis: no axis is named by it
+            if how in ("sn", "regex", "bounds"):
+                coord("auxiliary_coordinate", other, {"standard_name": name})
+            elif how == "ln":
+                coord("auxiliary_coordinate", other, {"long_name": name})
+            else:
+                coord("auxiliary_coordinate", other, {}, ncvar=name)
+
+    share(0, 1 if rng.random() < 0.3 else None)
+    if rng.random() < 0.6:
+        share(nax, None)                     # the size-1 axis
+    if rng.random() < 0.5:
+        coord("dimension_coordinate", 1, {"standard_name": rng.choice(["altitude", "air_pressure"])})
+    cons.append({"type": "auxiliary_coordinate", "axes": [1, 0] if nax > 1 else [0],
+                 "props": rand_props(rng), "ncvar": None, "bounds": None})
+    cons.append({"type": "cell_measure", "axes": [0], "props": {}, "ncvar": None, "comp": "area"})
+    cons.append({"type": "cell_method", "props": {}, "ncvar": None, "comp": "mean", "maxes": [0]})
+    cons.append({"type": "cell_method", "props": {}, "ncvar": None, "comp": "maximum", "maxes": [1, 0]})
+    return {"base": None, "axes": axes, "data_axes": data_axes, "constructs": cons,
+            "props": {"standard_name": "air_temperature"}, "domain": rng.random() < 0.1, "fam": "shared-identity"}
+
+
 def example_spec(rng):
     muts = []
     for _ in range(rng.choice([0, 1, 2, 3, 4])):
@@ -763,9 +821,80 @@ def queries_for(rng, R, tier, is_domain):
     c1 = [c for c in R.of_type("dimension_coordinate") if c["axes"] and len(c["axes"]) == 1 and c["identities"]]
     if c1 and rng.random() < 0.5:
         c = rng.choice(c1)
-        qs.append({"kind": "plural", "method": "domain_axes", "ids": [vs(c["identities"][0])],
-                   "fs": [["size", [vi(99)]]], "todict": False, "fam": "domain_axes-converted+filter",
-                   "oracle_only": True})
+        a = c["axes"][0]
+        sz = R.by[a]["size"] if a in R.by else 99
+        for n in (99, sz):
+            qs.append({"kind": rng.choice(["plural", "plural", "accessor"]), "method": "domain_axes",
+                       "ids": [vs(c["identities"][0])], "fs": [["size", [vi(n)]]], "todict": False,
+                       "how": "key", "default": "none", "fam": "domain_axes-converted+filter"})
+            if qs[-1]["kind"] == "accessor":
+                qs[-1]["method"] = "domain_axis"
+        if not is_domain and R.of_type("cell_method"):
+            meths = [m["comp"] for m in R.of_type("cell_method") if m["comp"]] + ["nothing"]
+            qs.append({"kind": "plural", "method": "cell_methods", "ids": [vs(c["identities"][0])],
+                       "fs": [["method", [vs(rng.choice(meths))]]], "todict": rng.random() < 0.5,
+                       "fam": "cell_methods-converted+filter"})
+    qs += shared_identity_queries(rng, R, tier, is_domain)
+    return qs
+
+
+REGEX_STEMS = ["atitude", "ongitude", "ime", "eight", "lat", "name"]
+
+
+def shared_identity_queries(rng, R, tier, is_domain):
+    """An axis named by an identity (or a regular expression) that matches SEVERAL 1-d coordinates:
+    the axis they all span, or no axis when they span different ones.  Through filter_by_axis in
+    every axis_mode and both return forms, inverse_filter, domain_axes / domain_axis /
+    domain_axis_key, the cell_methods fall-back, and the Field methods that take an axis identity."""
+    qs = []
+    c1 = [c for c in R.of_type("dimension_coordinate", "auxiliary_coordinate")
+          if c["axes"] is not None and len(c["axes"]) == 1]
+    cands = []
+    seen = set()
+    for c in c1:
+        for s in c["identities"]:
+            if ok_text(s) and s not in seen:
+                seen.add(s)
+                cands.append(vs(s))
+    for stem in REGEX_STEMS:
+        cands.append(vre(0, 0, stem))
+    multi = []
+    for v in cands:
+        hit = [c for c in c1 if any(py_match(v, i) for i in c["identities"])]
+        if len(hit) >= 2 and not key_clash(R, [v]):
+            multi.append((v, sorted({c["axes"][0] for c in hit})))
+    rng.shuffle(multi)
+    das = {c["key"]: c for c in R.of_type("domain_axis")}
+    for v, axs in multi[:(3 if tier == "quick" else 8)]:
+        fam = "shared-identity:one-axis" if len(axs) == 1 else "shared-identity:several-axes"
+        for am in ("and", "or", "exact", "subset"):
+            qs.append({"kind": "chain", "form": rng.choice(["filter", "methods"]), "fs": [["axis", [v]]],
+                       "todict": am in ("and", "exact"), "am": am, "pm": ["and"], "fam": fam})
+        qs.append({"kind": "chain", "form": "filter", "fs": [["axis", [v]]], "todict": False, "am": "and",
+                   "pm": ["and"], "fam": fam})
+        qs.append({"kind": "chain", "form": "methods", "fs": [["type", ["auxiliary_coordinate", "cell_measure"]], ["axis", [v]]],
+                   "todict": True, "am": "or", "pm": ["and"], "fam": fam})
+        other = [k for k in das if k not in axs]
+        if other:
+            qs.append({"kind": "chain", "form": "filter", "fs": [["axis", [v, vs(rng.choice(other))]]],
+                       "todict": False, "am": rng.choice(["and", "or", "exact", "subset"]), "pm": ["and"], "fam": fam})
+        qs.append({"kind": "ops", "fam": fam, "ops": [
+            ["filter", {"kind": "chain", "form": "methods", "fs": [["axis", [v]]], "todict": False,
+                        "am": rng.choice(["and", "or"]), "pm": ["and"]}], ["inverse", rng.choice([None, 1])]]})
+        qs.append({"kind": "plural", "method": "domain_axes", "ids": [v], "fs": [], "todict": rng.random() < 0.5, "fam": fam})
+        qs.append({"kind": "accessor", "method": "domain_axis", "ids": [v], "fs": [], "how": "key",
+                   "default": rng.choice(["raise", "none"]), "fam": fam})
+        qs.append({"kind": "accessor", "method": "domain_axis_key", "ids": [v], "fs": [],
+                   "default": rng.choice(["raise", "none"]), "fam": fam})
+        if not is_domain:
+            qs.append({"kind": "plural", "method": "cell_methods", "ids": [v], "fs": [], "todict": False, "fam": fam})
+            if v[0] == "s":
+                a = axs[0] if len(axs) == 1 else None
+                for m in ("insert_dimension", "indices", "nc_set_hdf5_chunksizes"):
+                    if m == "insert_dimension" and a is not None and (das[a]["size"] != 1 or a in R.fda):
+                        continue
+                    qs.append({"kind": "axis_method", "method": m, "id": v, "key": a, "fam": fam + ":" + m,
+                               "oracle_only": True})
     return qs
 
 
@@ -786,7 +915,10 @@ def expect(R, q):
                 return {"keys": e}
             return {"keys": expect_domain_axes(R, q["ids"])}
         if m == "cell_methods":
-            return {"keys": expect_cell_methods(R, q["ids"])}
+            base = expect_cell_methods(R, q["ids"])
+            if q.get("fs"):
+                return {"keys": expect_chain(R, q["fs"], "and", ["and"], within=base)}
+            return {"keys": base}
         fs = [["type", q["ts"]]] + q["fs"] + ([["identity", q["ids"]]] if q["ids"] else [])
         e = expect_chain(R, fs, "and", ["and"])
         return {"err": e[1]} if isinstance(e, tuple) else {"keys": e}
@@ -794,8 +926,12 @@ def expect(R, q):
         m = q["method"]
         if m == "domain_axis":
             sel = expect_domain_axes(R, q["ids"])
+            if q.get("fs"):
+                sel = expect_chain(R, q["fs"], "and", ["and"], within=sel)
         elif m == "cell_method":
             sel = expect_cell_methods(R, q["ids"])
+            if q.get("fs"):
+                sel = expect_chain(R, q["fs"], "and", ["and"], within=sel)
         elif m == "domain_axis_key":
             fs = [["type", ["dimension_coordinate", "auxiliary_coordinate"]], ["naxes", [vi(1)]]] + \
                  ([["identity", q["ids"]]] if q["ids"] else [])
@@ -948,9 +1084,9 @@ def g_query(q, res):
     elif kind in ("plural", "accessor"):
         m = q["method"]
         if m in ("domain_axes", "domain_axis"):
-            sel = f"(SDomainAxes {g_vals(q['ids'])})"
+            sel = f"(SDomainAxes {g_vals(q['ids'])} {glist(q.get('fs', []), g_fspec)})"
         elif m in ("cell_methods", "cell_method"):
-            sel = f"(SCellMethods {g_vals(q['ids'])})"
+            sel = f"(SCellMethods {g_vals(q['ids'])} {glist(q.get('fs', []), g_fspec)})"
         elif m == "domain_axis_key":
             sel = None
         else:
@@ -1002,10 +1138,14 @@ def classify(R, q, res, exp):
         if res.get("err") == "KeyErr":
             return "inverse-filter-depth-after-inverse-raises"
         return "inverse-or-unfilter-not-relative-to-previous-filter"
+    if fam.startswith("shared-identity"):
+        return "axis-named-by-identity-shared-by-several-1d-coordinates"
     if fam == "domain_axes-kw":
         return "domain_axes-identity-keyword-order-crash" if "err" in res else "domain_axes-identity-keyword"
     if fam == "domain_axes-converted+filter":
         return "domain_axes-converted-identity-ignores-other-filters"
+    if fam == "cell_methods-converted+filter":
+        return "cell_methods-converted-identity-ignores-other-filters"
     if q.get("method") in ("cell_methods", "cell_method"):
         return "cell_methods-no-match-selects-all"
     if q.get("method") in ("domain_axes", "domain_axis", "domain_axis_key"):
@@ -1068,6 +1208,16 @@ def judge(chk, R, q, res, exp, spec, stats):
             elif not set(res["keys"]) <= set(R.keys):
                 bad = ({}, "selected keys outside the collection")
         exp = e or {}
+    elif kind == "axis_method":
+        by_id, by_key = res.get("by_id"), res.get("by_key")
+        if q["key"] is not None:
+            exp = {"same_as_key": q["key"], "outcome": by_key}
+            if by_id != by_key:
+                bad = (exp, f"{q['method']} with the axis named by a coordinate identity differs from naming it by key")
+        else:
+            exp = {"err": "ValueErr"}
+            if not (isinstance(by_id, dict) and by_id.get("err") == "ValueErr"):
+                bad = (exp, f"{q['method']}: the identity names no single axis, expected ValueError")
     elif "err" in exp:
         if res.get("err") != exp["err"]:
             bad = (exp, f"expected {exp['err']}")
@@ -1111,7 +1261,8 @@ def run(chk, model_ok):
     nfields = 110 if tier == "quick" else 520
     specs = list(CORPUS_SPECS)
     for i in range(nfields):
-        specs.append(example_spec(rng) if rng.random() < 0.3 else synth_spec(rng))
+        r = rng.random()
+        specs.append(example_spec(rng) if r < 0.27 else shared_spec(rng) if r < 0.45 else synth_spec(rng))
 
     # phase 1: self-reports
     rows = run_phase(chk, specs)
